@@ -472,6 +472,37 @@ func c01World(c *explore.Ctx, mode string, subs []c01Sub, pubs []c01Pub, unsubFi
 							c.Violate("publisher-ack", fmt.Sprintf("reason-code-0x%02x-want-0x%02x", acks[0].Code, wantCode), pcas(), fmt.Sprintf("0x%02x", wantCode), fmt.Sprintf("0x%02x", acks[0].Code))
 						}
 					}
+					if pub.qos == 2 && pub.alias == 0 {
+						// the publisher retransmits the PUBLISH (DUP, same identifier) before PUBREL: it is
+						// acknowledged again with the same identifier and reaches nobody a second time
+						re := &refmqtt.Packet{Type: refmqtt.PUBLISH, Topic: pub.topic, QoS: 2, Retain: pub.retain, Dup: true, PacketID: pid, Payload: []byte(payload)}
+						if pub.props {
+							re.Props = allPubProps()
+						}
+						pubc.Send(re)
+						vsched.Settle()
+						n2 := 0
+						for _, r := range pubc.Recv() {
+							if r.P != nil && r.P.Type == refmqtt.PUBREC && r.P.PacketID == pid {
+								n2++
+							} else if r.P != nil && r.P.Type == refmqtt.PUBLISH && string(r.P.Payload) == payload {
+								c.Violate("delivery", "retransmitted-qos2-publish-forwarded-again", pcas(), "no second copy", r.P.String())
+							}
+						}
+						if n2 != 1 {
+							c.Violate("publisher-ack", "retransmitted-qos2-publish-not-acknowledged", pcas(), fmt.Sprintf("PUBREC(%d)", pid), fmt.Sprint(n2, " PUBREC"))
+						}
+						for ci := 0; ci < 3; ci++ {
+							if cl[ci] == pubc {
+								continue
+							}
+							for _, r := range cl[ci].Recv() {
+								if r.P != nil && r.P.Type == refmqtt.PUBLISH && string(r.P.Payload) == payload {
+									c.Violate("delivery", "retransmitted-qos2-publish-forwarded-again", pcas(), "no second copy", r.P.String())
+								}
+							}
+						}
+					}
 					if pub.qos == 2 {
 						pubc.Send(&refmqtt.Packet{Type: refmqtt.PUBREL, PacketID: pid})
 						vsched.Settle()
@@ -503,7 +534,7 @@ func c01World(c *explore.Ctx, mode string, subs []c01Sub, pubs []c01Pub, unsubFi
 
 func runC01(c *explore.Ctx) {
 	c.Level = "model_checking"
-	c.Rule = "E2: every subscription table of 1..2 (thorough: a third from a reduced set) subscriptions over {s1(v5), s2(v3.1.1), p(v5, publishes itself)} x 6 filters x QoS x {plain, NoLocal, RAP, id1, id2, NoLocal+RAP+id1}, in both delivery modes; each table is installed on a fresh in-process broker through real SUBSCRIBE packets, then the whole publish battery (v5 client / v3 client / Publisher API x 4 topics x QoS x retain x properties, then the v5 client publishing through an inbound topic alias that is bound, used, re-bound to another topic and used again) is sent, every delivery acknowledged; after each publish every socket is compared with the expected multiset of copies (count, QoS, RETAIN, subscription ids, properties), publication order and publisher acks. states = tables installed, transitions = publishes checked."
+	c.Rule = "E2: every subscription table of 1..2 (thorough: a third from a reduced set) subscriptions over {s1(v5), s2(v3.1.1), p(v5, publishes itself)} x 6 filters x QoS x {plain, NoLocal, RAP, id1, id2, NoLocal+RAP+id1}, in both delivery modes; each table is installed on a fresh in-process broker through real SUBSCRIBE packets, then the whole publish battery (v5 client / v3 client / Publisher API x 4 topics x QoS x retain x properties, then the v5 client publishing through an inbound topic alias that is bound, used, re-bound to another topic and used again) is sent, every delivery acknowledged; after each publish every socket is compared with the expected multiset of copies (count, QoS, RETAIN, subscription ids, properties), publication order and publisher acks (every QoS 2 publish of a client is also retransmitted with DUP before its PUBREL: acknowledged again, forwarded to nobody again). states = tables installed, transitions = publishes checked."
 	c.Trusted = []string{"vsched default schedule (0 deviations)", "refmqtt codec and matcher"}
 	c.Assumptions = []string{"onlyonce mode with matching subscriptions that disagree on Retain-As-Published: either RETAIN value is accepted (statement silent)", "queue 1000, no packet size limit, default 2h message expiry: no documented drop condition is active"}
 	cands := c01Candidates(false)
